@@ -446,11 +446,13 @@ def rule_footnote_wrap(ctx, rid):
             continue
         neg, src = b.switch_source(a)
         if src[0] == "bin" and src[1]["bin"] in ("Gt", "Lt", "Ge", "Le"):
-            ea, eb = norm(b.expr(src[1]["a"])), norm(b.expr(src[1]["b"]))
+            ea, eb = norm(b.canon(src[1]["a"])), norm(b.canon(src[1]["b"]))
             if "self.width" in (ea, eb):
                 n += 1
                 other = eb if ea == "self.width" else ea
-                ctx.check(other.startswith("(pos + "), rid, "fmt_links:break-when-pos+w>self.width#%d" % n, b.term(a)["span"], b.id,
+                import re as _re
+                # `column cursor + width of what is about to be added`: the cursor is a multi-definition local
+                ctx.check(_re.match(r"\(\$\d+ \+ ", other) is not None, rid, "fmt_links:break-when-pos+w>self.width#%d" % n, b.term(a)["span"], b.id,
                           "compares %s with %s" % (ea, eb))
                 cut = edges_where(b, lambda truth, src2, a2, s2: truth is True and src_field(src2) ==
                                   ("render::text_renderer::RenderOptions", "wrap_links"))
